@@ -597,3 +597,186 @@ Proof.
   destruct (afind h (sc_status (fold_left _ (sc_status (ws_sc s)) (ws_sc s)))) as [e'|]; [|discriminate].
   injection Hc as Ht Hs. exists e'. auto.
 Qed.
+
+(* ------------------------------------------------------------------ the closed loop implements the plan *)
+Lemma post_main o i sch k : (k < length (i_shards i))%nat ->
+  o_skipped (cycle o i sch) = false -> o_divzero (cycle o i sch) = false ->
+  nth k (o_posts (cycle o i sch)) None = fst (apply_shard (i_active i) (shard_at i k) (nth_si (final_plan o i sch) k)) /\
+  o_plan (cycle o i sch) = final_plan o i sch.
+Proof.
+  intros Hk. unfold cycle, cycle_sst.
+  destruct (_ && negb (i_scale1_ok i)); cbn [fst o_skipped]; [discriminate|].
+  destruct (negb _ && (max_proc o =? 0)); cbn [fst o_divzero o_posts o_plan]; [discriminate|].
+  intros _ _. fold (final_plan o i sch). split; [|reflexivity].
+  rewrite map_map.
+  set (F := fun x : shard_in * sinfo => fst (apply_shard (i_active i) (fst x) (snd x))).
+  set (d := ({| sh_ready := false; sh_status := None; sh_rt1 := None; sh_push_ok := false; sh_rt2 := None; sh_post_ok := false |}, dflt)).
+  assert (Hd : F d = None) by reflexivity.
+  rewrite <- Hd at 1. rewrite (map_nth F). unfold d.
+  rewrite combine_nth by (unfold final_plan; now rewrite stages_len_p4). reflexivity.
+Qed.
+
+Lemma need_update_false_same targets (cache : amap cstat) :
+  NoDup (map pt_hash targets) -> NoDup (akeys cache) -> need_update targets cache = false ->
+  forall h st, (exists t, In t targets /\ pt_hash t = h /\ pt_state t = st) <-> (exists c, afind h cache = Some c /\ c_state c = st).
+Proof.
+  intros Hnt Hnc Hnu. unfold need_update in Hnu. apply orb_false_iff in Hnu. destruct Hnu as [Hnu Hex].
+  apply orb_false_iff in Hnu. destruct Hnu as [Hlen _]. apply negb_false_iff, Nat.eqb_eq in Hlen.
+  assert (Hall : forall t, In t targets -> exists c, afind (pt_hash t) cache = Some c /\ c_state c = pt_state t).
+  { intros t Hin. destruct (afind (pt_hash t) cache) as [c|] eqn:E.
+    - exists c. split; [reflexivity|]. destruct (tstate_eqb (c_state c) (pt_state t)) eqn:Es.
+      + destruct (c_state c), (pt_state t); try discriminate; reflexivity.
+      + exfalso. assert (Ht : existsb (fun t0 => match afind (pt_hash t0) cache with Some c0 => negb (tstate_eqb (c_state c0) (pt_state t0)) | None => true end) targets = true).
+        { apply existsb_exists. exists t. split; [exact Hin|]. now rewrite E, Es. }
+        congruence.
+    - exfalso. assert (Ht : existsb (fun t0 => match afind (pt_hash t0) cache with Some c0 => negb (tstate_eqb (c_state c0) (pt_state t0)) | None => true end) targets = true).
+      { apply existsb_exists. exists t. split; [exact Hin|]. now rewrite E. }
+      congruence. }
+  assert (Hincl : incl (map pt_hash targets) (akeys cache)).
+  { intros h Hin. apply in_map_iff in Hin. destruct Hin as [t [<- Hin]]. destruct (Hall t Hin) as [c [E _]]. apply afind_some_keys. eauto. }
+  assert (Hincl2 : incl (akeys cache) (map pt_hash targets)).
+  { apply NoDup_length_incl; [exact Hnt| |exact Hincl]. unfold akeys. rewrite !map_length. lia. }
+  intros h st. split.
+  - intros [t [Hin [<- <-]]]. destruct (Hall t Hin) as [c [E Es]]. eauto.
+  - intros [c [E Es]]. assert (Hin : In h (map pt_hash targets)) by (apply Hincl2; apply afind_some_keys; eauto).
+    apply in_map_iff in Hin. destruct Hin as [t [Ht Hin]]. exists t. split; [exact Hin|]. split; [exact Ht|].
+    destruct (Hall t Hin) as [c' [E' Es']]. rewrite Ht in E'. rewrite E in E'. injection E' as <-. congruence.
+Qed.
+
+Lemma new_targets_char active s h st : NoDup (akeys (scr_of s)) ->
+  (exists t, In t (new_targets active s) /\ pt_hash t = h /\ pt_state t = st) <->
+  (exists c, afind h (scr_of s) = Some c /\ c_state c = st /\ is_active active h = true).
+Proof.
+  intros Hnd. unfold new_targets. split.
+  - intros [t [Hin [Hh Hs]]]. apply in_flat_map in Hin. destruct Hin as [[h' c] [Hin Ht]]. cbn [fst snd] in Ht.
+    destruct (afind h' active) as [job|] eqn:Ej; [|destruct Ht]. destruct Ht as [<-|[]]. cbn in Hh, Hs. subst h' st.
+    exists c. split; [now apply In_afind_nodup|]. split; [reflexivity|]. unfold is_active, amem. now rewrite Ej.
+  - intros [c [Hf [Hs Hact]]]. unfold is_active, amem in Hact. destruct (afind h active) as [job|] eqn:Ej; [|discriminate].
+    exists {| pt_hash := h; pt_job := job; pt_state := c_state c; pt_series := c_series c |}. split; [|cbn; auto].
+    apply in_flat_map. exists (h, c). split; [now apply afind_In|]. cbn [fst snd]. rewrite Ej. now left.
+Qed.
+
+Lemma afind_map_val {A B} (gf : A -> B) h (m : amap A) :
+  afind h (map (fun kv => (fst kv, gf (snd kv))) m) = match afind h m with Some a => Some (gf a) | None => None end.
+Proof. induction m as [|[k a] r IH]; cbn; [reflexivity|]. destruct (N.eqb h k); [reflexivity|exact IH]. Qed.
+
+Lemma insync_nofaults tru w k : (k < length (w_shards w))%nat -> insync (cycle_input tru w no_faults) k = true.
+Proof.
+  intros Hk. unfold insync, info_at. rewrite shard_at_world by exact Hk. unfold get_info, shard_input.
+  cbn [sh_ready sh_status sh_rt1 sh_push_ok sh_rt2 no_faults f_not_ready f_unreachable f_stale hit existsb negb andb].
+  unfold runtime_of. cbn [r_hash_ok]. destruct (ws_hash_ok (nth k (w_shards w) dws)); reflexivity.
+Qed.
+
+(* after a fault-free cycle every sidecar holds exactly what the final plan has for its shard: the same targets in the
+   same states (C08 left-alone / C10 update semantics / needUpdate), whether or not an update was sent *)
+Theorem world_follows_plan o tru w sch k h st :
+  wwf w -> (k < length (w_shards w))%nat ->
+  let i := cycle_input tru w no_faults in
+  let out := cycle o i sch in
+  o_skipped out = false -> o_divzero out = false ->
+  let s' := after_cycle_shard tru w no_faults k (nth k (w_shards w) dws) (nth k (o_posts out) None) in
+  (exists e, afind h (sc_status (ws_sc s')) = Some e /\ ss_state e = st) <->
+  (exists c, afind h (scr_of (nth_si (o_plan out) k)) = Some c /\ c_state c = st /\ is_active (i_active i) h = true).
+Proof.
+  intros Hw Hk. cbn zeta. set (i := cycle_input tru w no_faults). set (out := cycle o i sch). intros Hsk Hdz.
+  set (s := nth k (w_shards w) dws).
+  assert (Hlen : length (i_shards i) = length (w_shards w)) by apply inputs_length.
+  assert (Hki : (k < length (i_shards i))%nat) by now rewrite Hlen.
+  destruct (post_main o i sch k Hki Hsk Hdz) as [Hpost Hplan]. fold out in Hpost, Hplan. rewrite Hplan.
+  assert (Hsync : insync i k = true) by now apply insync_nofaults.
+  assert (Hwf : wf (ws_sc s)).
+  { unfold wwf in Hw. rewrite Forall_forall in Hw. apply Hw. now apply nth_In. }
+  assert (Hnd4 : NoDup (akeys (scr_of (nth_si (final_plan o i sch) k)))).
+  { apply (stages_nodup o i (sst_of sch) (nodup_reports_world tru w no_faults Hw)). }
+  assert (Hok4 : si_ok (nth_si (final_plan o i sch) k) = true).
+  { unfold final_plan. rewrite <- (le_ok _ _ (stages_le_14 o i (sst_of sch))). now rewrite p1_ok. }
+  rewrite <- (new_targets_char (i_active i) _ h st Hnd4).
+  set (ts := new_targets (i_active i) (nth_si (final_plan o i sch) k)) in *.
+  assert (Hrep : reported i k = map (fun kv => (fst kv, cstat_of (snd kv))) (sc_status (ws_sc s))) by now apply reported_world_full.
+  unfold apply_shard in Hpost. rewrite Hok4 in Hpost. cbn [negb] in Hpost. fold ts in Hpost.
+  change (cache_of (shard_at i k)) with (reported i k) in Hpost.
+  unfold after_cycle_shard. cbn [ws_sc].
+  destruct (need_update ts (reported i k)) eqn:Enu.
+  - (* an update is sent and arrives *)
+    assert (Hp : nth k (o_posts out) None = Some ts) by (rewrite Hpost; now destruct (sh_post_ok (shard_at i k))).
+    rewrite Hp. cbn [hit f_unreachable f_post_lost no_faults existsb negb andb fst do_update sc_status].
+    assert (Hu : body_unique ts) by (apply new_targets_unique; exact Hnd4).
+    pose proof (request_unique tru ts Hu) as Hndr.
+    destruct (update_status_spec (sc_status (ws_sc s)) (request_of tru ts) Hndr) as [Hkeys Hfind].
+    split.
+    + intros [e [Hf Hs]].
+      assert (Hin : In h (hashes (request_of tru ts))) by (rewrite <- Hkeys; apply afind_some_keys; eauto).
+      unfold hashes in Hin. apply in_map_iff in Hin. destruct Hin as [t [Hth Hin]]. subst h.
+      rewrite (Hfind t Hin) in Hf. injection Hf as <-. cbn [entry_for ss_state] in Hs.
+      assert (Hp' : In t (rev (map (mk_tgt tru) ts))) by (eapply Permutation_in; [apply all_targets_request_of|exact Hin]).
+      apply in_rev in Hp'. apply in_map_iff in Hp'. destruct Hp' as [p [<- Hpin]]. exists p. cbn [mk_tgt t_hash t_state] in *. auto.
+    + intros [p [Hpin [Hh Hs]]].
+      assert (Hin : In (mk_tgt tru p) (all_targets (request_of tru ts))).
+      { eapply Permutation_in; [apply Permutation_sym, all_targets_request_of|]. apply -> in_rev. apply in_map_iff. now exists p. }
+      exists (entry_for (sc_status (ws_sc s)) (mk_tgt tru p)). split.
+      * rewrite <- Hh. apply (Hfind (mk_tgt tru p) Hin).
+      * cbn [entry_for ss_state mk_tgt t_state]. exact Hs.
+  - (* nothing is sent: the shard already holds exactly this *)
+    assert (Hp : nth k (o_posts out) None = None) by now rewrite Hpost. rewrite Hp.
+    assert (Hndc : NoDup (akeys (reported i k))) by apply (nodup_reports_world tru w no_faults Hw k).
+    rewrite (need_update_false_same ts (reported i k) (new_targets_unique _ _ Hnd4) Hndc Enu h st).
+    rewrite Hrep, afind_map_val. destruct (afind h (sc_status (ws_sc s))) as [e|]; cbn.
+    + split; [intros [e' [[= <-] Hs]]; exists (cstat_of e); auto|intros [c [[= <-] Hs]]; exists e; auto].
+    + split; intros [x [Hx _]]; discriminate.
+Qed.
+
+(* ------------------------------------------------------------------ a ripe world becomes a clean world in one cycle *)
+From KV Require Import Proofs.CoordRipe.
+
+Lemma stages_p4_noidle o i s : max_idle o = 0 -> st_p4 (run_stages o i s) = st_p3 (run_stages o i s).
+Proof.
+  intros Hmi. unfold run_stages. cbn [st_p4 st_p3]. rewrite Hmi. cbn [Z.eqb negb].
+  destruct (negb _); reflexivity.
+Qed.
+
+Theorem ripe_world_becomes_clean o tru w sch :
+  wwf w -> max_idle o = 0 -> NoDup (w_active w) ->
+  (forall k h e, (k < length (w_shards w))%nat -> afind h (sc_status (ws_sc (nth k (w_shards w) dws))) = Some e -> (3 <= ss_times e)%N) ->
+  let i := cycle_input tru w no_faults in
+  let out := cycle o i sch in
+  calm o (st_p1 (run_stages o i (sst_of sch))) -> o_skipped out = false -> o_divzero out = false ->
+  let status' := fun k => sc_status (ws_sc (after_cycle_shard tru w no_faults k (nth k (w_shards w) dws) (nth k (o_posts out) None))) in
+  forall k h e, (k < length (w_shards w))%nat -> afind h (status' k) = Some e ->
+    ss_state e = Normal /\ In h (w_active w) /\
+    forall j, j <> k -> (j < length (w_shards w))%nat -> afind h (status' j) = None.
+Proof.
+  intros Hw Hmi Hnda Hripe. cbn zeta. set (i := cycle_input tru w no_faults). set (out := cycle o i sch).
+  intros Hcalm Hsk Hdz k h e Hk Hf.
+  assert (Hlen : length (i_shards i) = length (w_shards w)) by apply inputs_length.
+  assert (Hkeys : akeys (i_active i) = w_active w).
+  { unfold i, cycle_input, akeys. cbn [i_active]. rewrite map_map. cbn. apply map_id. }
+  assert (Hclean : clean (i_active i) (st_p3 (run_stages o i (sst_of sch)))).
+  { apply ripe_cycle_gives_clean_plan.
+    - intros k' Hk'. apply insync_nofaults. now rewrite <- Hlen.
+    - now apply nodup_reports_world.
+    - now rewrite Hkeys.
+    - intros k' h' c Hc. destruct (Nat.lt_ge_cases k' (length (w_shards w))) as [Hk'|Hk'].
+      + unfold i in Hc. rewrite (reported_world_full tru w no_faults k' Hk' (insync_nofaults tru w k' Hk')), afind_map_val in Hc.
+        destruct (afind h' (sc_status (ws_sc (nth k' (w_shards w) dws)))) as [e'|] eqn:Ee; [|discriminate].
+        injection Hc as <-. cbn [cstat_of c_times]. now apply (Hripe k' h' e' Hk').
+      + unfold reported, shard_at in Hc. rewrite nth_overflow in Hc by (rewrite Hlen; exact Hk'). discriminate.
+    - intros h' c Hc. unfold i, cycle_input in Hc. cbn [i_explore] in Hc. unfold explore_of in Hc.
+      apply afind_In in Hc. apply in_map_iff in Hc. destruct Hc as [x [Hx _]]. injection Hx as _ <-.
+      now destruct (tr_healthy (truth_of tru x)).
+    - exact Hcalm. }
+  assert (Hplan : forall k', (k' < length (w_shards w))%nat -> o_plan out = st_p3 (run_stages o i (sst_of sch))).
+  { intros k' Hk'. assert (Hki : (k' < length (i_shards i))%nat) by now rewrite Hlen.
+    destruct (post_main o i sch k' Hki Hsk Hdz) as [_ Hp]. fold out in Hp. rewrite Hp. unfold final_plan. now apply stages_p4_noidle. }
+  assert (Hok3 : forall k', (k' < length (w_shards w))%nat -> si_ok (nth_si (st_p3 (run_stages o i (sst_of sch))) k') = true).
+  { intros k' Hk'. rewrite <- (stages_p4_noidle o i (sst_of sch) Hmi). rewrite <- (le_ok _ _ (stages_le_14 o i (sst_of sch))).
+    rewrite p1_ok by (now rewrite Hlen). now apply insync_nofaults. }
+  destruct (proj1 (world_follows_plan o tru w sch k h (ss_state e) Hw Hk Hsk Hdz)) as [c [Hc [Hs Hact]]]; [eauto|].
+  fold i out in Hc. rewrite (Hplan k Hk) in Hc.
+  destruct (cl_entry _ _ Hclean k h c (Hok3 k Hk) Hc) as [_ Hn].
+  split; [congruence|]. split.
+  - rewrite <- Hkeys. apply amem_keys. exact Hact.
+  - intros j Hj Hjl. destruct (afind h (sc_status (ws_sc (after_cycle_shard tru w no_faults j (nth j (w_shards w) dws) (nth j (o_posts out) None))))) as [e'|] eqn:Ee; [|reflexivity].
+    exfalso. destruct (proj1 (world_follows_plan o tru w sch j h (ss_state e') Hw Hjl Hsk Hdz)) as [c' [Hc' _]]; [eauto|].
+    fold i out in Hc'. rewrite (Hplan j Hjl) in Hc'.
+    rewrite (cl_single _ _ Hclean k j h c (not_eq_sym Hj) (Hok3 k Hk) (Hok3 j Hjl) Hc) in Hc'. discriminate.
+Qed.
